@@ -179,13 +179,15 @@ Qed.
 Theorem verdict_sound : alts_ok gen_breaks = true ->
   forall k, c19_wf k = true -> agree_of (c19_verdict k) = true -> holds_of (c19_verdict k) = true.
 Proof.
-  intros OK k W A. destruct k as [rt robs rpy | rt rm rn robs | rc m pos rruns | rc m ie rfwd rrev];
+  intros OK k W A. destruct k as [rt robs rpy | rt rm rn robs | rc bsplit biter blstrip dec titer tlstrip | rc m pos rruns | rc m ie rfwd rrev];
     unfold agree_of, holds_of in *; cbn [c19_verdict fst snd] in *.
   - (* iter_splitlines *)
     apply andb_true_iff in A as [A _]. apply lines_eqb_eq in A. rewrite <- A.
     rewrite iter_splitlines_correct by exact OK. apply lines_eqb_eq. reflexivity.
   - (* indent *)
     apply text_eqb_eq in A. rewrite <- A. rewrite indent_correct by exact OK. apply text_eqb_eq. reflexivity.
+  - (* primitives: nothing demanded *)
+    reflexivity.
   - (* reverse_iter_lines *)
     cbn [c19_wf] in W. apply andb_true_iff in W as [W1 W2].
     set (c := expand rc) in *. set (p := pos_of c pos) in *.
